@@ -158,12 +158,11 @@ theorem planner_partition_invariant {gs gs' : List QGraph} {F : Facts} (hF : BW.
     (U : BW.Proofs.Planner.Universe gs) (U' : BW.Proofs.Planner.Universe gs') (lo : QOpts) (c0 : Clause) (cs : List Clause)
     (hscan : (gs.flatMap BW.Proofs.Planner.scanOf).Perm (gs'.flatMap BW.Proofs.Planner.scanOf))
     (hpc : ∀ c ∈ c0 :: cs, BW.Proofs.Planner.PatClause U c) (hpc' : ∀ c ∈ c0 :: cs, BW.Proofs.Planner.PatClause U' c)
-    (hno : ∀ c ∈ c0 :: cs, c.oLowerAlias = [] ∧ c.oUpperAlias = [])
     (hopt : c0.optional = false) (h0 : c0.extractsNothing = false)
     (out out' : Tbl) (h : processPattern F gs (c0 :: cs) lo 0 (fun _ => none) = .ok out)
     (h' : processPattern F gs' (c0 :: cs) lo 0 (fun _ => none) = .ok out') :
     BW.Proofs.Planner.SetEq out.rows out'.rows :=
-  BW.Proofs.Planner.planner_partition hF hg hg' U U' lo c0 cs hscan hpc hpc' hno hopt h0 out out' h h'
+  BW.Proofs.Planner.planner_partition hF hg hg' U U' lo c0 cs hscan hpc hpc' hopt h0 out out' h h'
 
 /-- Adding triples never removes a row of the planner's table (patterns without OPTIONAL). -/
 theorem planner_monotone {gs gs' : List QGraph} {F : Facts} (hF : BW.Proofs.Store.Facts.WF F = true)
@@ -171,12 +170,11 @@ theorem planner_monotone {gs gs' : List QGraph} {F : Facts} (hF : BW.Proofs.Stor
     (U : BW.Proofs.Planner.Universe gs) (U' : BW.Proofs.Planner.Universe gs') (lo : QOpts) (c0 : Clause) (cs : List Clause)
     (hsub : ∀ t ∈ gs.flatMap BW.Proofs.Planner.scanOf, t ∈ gs'.flatMap BW.Proofs.Planner.scanOf)
     (hpc : ∀ c ∈ c0 :: cs, BW.Proofs.Planner.PatClause U c ∧ c.optional = false)
-    (hpc' : ∀ c ∈ c0 :: cs, BW.Proofs.Planner.PatClause U' c)
-    (hno : ∀ c ∈ c0 :: cs, c.oLowerAlias = [] ∧ c.oUpperAlias = []) (h0 : c0.extractsNothing = false)
+    (hpc' : ∀ c ∈ c0 :: cs, BW.Proofs.Planner.PatClause U' c) (h0 : c0.extractsNothing = false)
     (out out' : Tbl) (h : processPattern F gs (c0 :: cs) lo 0 (fun _ => none) = .ok out)
     (h' : processPattern F gs' (c0 :: cs) lo 0 (fun _ => none) = .ok out') :
     ∀ r ∈ out.rows, ∃ r' ∈ out'.rows, BW.Proofs.ClauseOrder.RowEq r r' :=
-  BW.Proofs.Planner.planner_monotone hF hg hg' U U' lo c0 cs hsub hpc hpc' hno h0 out out' h h'
+  BW.Proofs.Planner.planner_monotone hF hg hg' U U' lo c0 cs hsub hpc hpc' h0 out out' h h'
 
 /-! ### The order of the SELECT list -/
 
